@@ -812,6 +812,15 @@ func (c *Concretizer) buildRequest(o *ROp, variant int) ([]byte, int) {
 			headers["anchorOrigin"] = "https://origin.example/"
 		}
 
+		// (a third of the foreign members have the value null: a member all the same)
+		if o.way(3) == 1 {
+			for name := range headers {
+				if name != "alg" && name != "kid" {
+					headers[name] = nil
+				}
+			}
+		}
+
 		// (every other such header has no kid: alg and the foreign member are all there is)
 		if o.way(2) == 1 {
 			delete(headers, "kid")
